@@ -932,12 +932,51 @@ def fault_variants(base_trace, rs, ws, fs):
     return out
 
 
+def t2_panic_observation_cases(ctx):
+    """Audit finding 7: what a run has read / written / traced BEFORE a panic.  A key that is not 32 bytes is a
+    caller error (`expect` / `assert_eq!` inside the AEAD wrappers), reached only after the look-ahead reads
+    (encrypt) resp. after the header and body reads of the first record (decrypt) and before any write; the driver
+    reports the shared trace / output / consumed counter of the panicked run and the model keeps the same partial
+    state.  Correspondence only (no direct oracle: the panic is not part of any property)."""
+    out = []
+    key = ctx.rbytes(32)
+    tag = ["panic-observation"]
+    P8 = b"abcdefgh"
+    # the audit's two cases: 31-byte key, chunk size 4
+    out.append(Case("enc_chunks", key=key[:31], aad=b"ad", cs=4, data=P8, tags=tag))
+    good = [Case("enc_chunks", key=key, aad=b"ad", cs=4, data=P8),
+            Case("enc_chunks", key=key, aad=b"", cs=3, data=b"xyzuvw1"),
+            Case("enc_chunks", key=key, aad=b"", cs=4, data=b"")]
+    vlib.run_impl(ctx.bin, good)
+    F8, F7, F0 = [c.result["out"] for c in good]
+    out.append(Case("dec_chunks", key=key[:31], aad=b"ad", cs=4, data=F8, tags=tag))
+    # other wrong lengths, short reads before the panic, empty input, chunk size 0
+    for bad in (b"", key[:1], key + b"\x00", key + key):
+        out.append(Case("enc_chunks", key=bad, aad=b"", cs=3, data=b"xyzuvw1", rs=ctx.rng.choice(["-", "c2,c1", "c1,c3"]), tags=tag))
+        out.append(Case("dec_chunks", key=bad, aad=b"", cs=3, data=F7, rs=ctx.rng.choice(["-", "c7,c9,c20", "c16,c1,i,c40"]), tags=tag))
+    out.append(Case("enc_chunks", key=key[:31], aad=b"", cs=4, data=b"", tags=tag))          # r4:0,r4:0 then the panic
+    out.append(Case("enc_chunks", key=key[:31], aad=b"", cs=0, data=b"abc", tags=tag))       # r0:0,r0:0 then the panic
+    out.append(Case("enc_chunks", key=key[:31], aad=b"", cs=4, data=P8, rs="c4,z", ws="o", fs="o", tags=tag))   # sink never reached
+    out.append(Case("dec_chunks", key=key[:31], aad=b"", cs=4, data=F0, tags=tag))           # empty final record: r16:16,r16:16
+    out.append(Case("dec_chunks", key=key[:31], aad=b"", cs=4, data=F0, ws="o", fs="o", tags=tag))
+    # contrast: an error determined BEFORE the key is looked at is an error value also with a bad key
+    out.append(Case("enc_chunks", key=key[:31], aad=b"", cs=4, data=P8, rs="c4,o", tags=tag + ["error-first"]))
+    out.append(Case("dec_chunks", key=key[:31], aad=b"ad", cs=4, data=F8[:20], tags=tag + ["error-first"]))
+    out.append(Case("dec_chunks", key=key[:31], aad=b"ad", cs=3, data=F8, tags=tag + ["error-first"]))       # ChunkLen before the body read
+    # file level: a payload key that is not 32 bytes panics in PayloadKey::new before any I/O
+    (s, spk), (r, rpk), (e, epk) = keypairs(ctx, 3)
+    out.append(Case("key_enc", s=s, spk=spk, r=rpk, e=e, epk=epk, pk=key[:31], data=P8, tags=tag))
+    return out
+
+
 class C10(Prop):
     id = "C10"
     rule = ("cases: for base runs (both directions, chunk hooks at cs 2..3 with assorted partitions, and both file modes "
             "through the public API) the k-th read / write / flush call is made to fail for EVERY k (Interrupted, other "
             "error, zero-length), plus random multi-fault scripts; observation = outcome class, bytes written, full I/O "
-            "trace; non-trivial = runs containing at least one fault")
+            "trace; plus caller errors that PANIC in the middle of a run (key of 0/1/31/33/64 bytes at the chunk hooks, 31-byte "
+            "payload key): the reads made before the panic and the untouched sink are compared with the model's partial state; "
+            "non-trivial = runs containing at least one fault")
     assumptions = ["std::io::Read::read_exact / Write::write_all default loops are transcribed in IO.v"]
 
     def base(self, ctx):
@@ -1010,7 +1049,26 @@ class C10(Prop):
                             return ("error identifies the failing side (%s)" % side, res["outcome"])
                     return None
                 out.append(Case(b.op, oracle=orc, tags=[tag.split("@")[0]], **a))
+        out += t2_panic_observation_cases(ctx)
         return out
+
+
+def t2_hkdf_panic_cases(ctx):
+    """Audit finding 5: hkdf_sha256(salt, ikm, info, len) is `derive_key(..).unwrap()`; orion refuses len = 0 and
+    len > 255 * 32 = 8160, so the exported function PANICS there (the model: AeadWrap.hkdf_sha256 = Panic PUnwrap)
+    and returns exactly len bytes for 1..8160.  Both sides of both boundaries."""
+    out = []
+    for n in (0, 8161, 8192, 70000):
+        out.append(Case("hkdf", salt=ctx.rbytes(ctx.rng.choice([0, 32])), ikm=ctx.rbytes(ctx.rng.choice([0, 1, 32])),
+                        info=ctx.rbytes(ctx.rng.choice([0, 7])), n=n,
+                        oracle=(lambda r: None if r["code"] != 0 else
+                                ("a length outside 1..8160 has no HKDF output (RFC 5869: L <= 255*HashLen): no bytes may be returned", r["outcome"])),
+                        tags=["hkdf", "hkdf-out-of-range"]))
+    for n in (1, 8160):
+        out.append(Case("hkdf", salt=b"", ikm=ctx.rbytes(32), info=ctx.rbytes(32), n=n,
+                        oracle=(lambda r, n=n: None if r["code"] == 0 and len(r["out"]) == n else ("%d bytes of output" % n, r["outcome"])),
+                        tags=["hkdf", "hkdf-boundary"]))
+    return out
 
 
 class C19(Prop):
@@ -1019,8 +1077,8 @@ class C19(Prop):
     rule = ("cases: each exported primitive vs its Gallina RFC specification: AEAD seal/open over plaintext lengths x AAD "
             "lengths at block boundaries (thorough: all 0..130 x 0..40), single-bit flips of ciphertext/tag/nonce/key/AD "
             "(must be rejected), X25519 on RFC vectors, low-order and non-canonical points and random pairs (symmetry), "
-            "HKDF lengths 1..8160, HMAC/SHA-256 message lengths 0..200, Noise nonce at counters across 64 bits; "
-            "non-trivial = all")
+            "HKDF lengths 1..8160 and the panicking lengths 0, 8161, 8192, 70000 (no output outside RFC 5869's range), "
+            "HMAC/SHA-256 message lengths 0..200, Noise nonce at counters across 64 bits; non-trivial = all")
     assumptions = ["orion is not modelled: its functions are compared with the RFC specifications, not proved equal",
                    "X25519 commutativity and AEAD unforgeability are not proved"]
     LOW_ORDER = ["00" * 32, "01" + "00" * 31,
@@ -1116,6 +1174,7 @@ class C19(Prop):
         for n in ([1, 31, 32, 33, 64, 255] + ([8160] if ctx.thorough() else [1000])):
             out.append(Case("hkdf", salt=ctx.rbytes(rng.choice([0, 1, 32, 100])), ikm=ctx.rbytes(rng.choice([0, 22, 80])),
                             info=ctx.rbytes(rng.choice([0, 10, 100])), n=n, tags=["hkdf"]))
+        out += t2_hkdf_panic_cases(ctx)
         for n in (range(0, 201) if ctx.thorough() else list(range(0, 70)) + [119, 120, 127, 128, 129, 200]):
             out.append(Case("sha256", m=ctx.rbytes(n), tags=["sha256"]))
             if n % 3 == 0:
